@@ -16,6 +16,12 @@ CONSTANTS Ids <- %s MaxNotifies = %d MaxRegs = %d SnapshotThenSend = %s
 INVARIANTS MonitorQuiet %s
 CHECK_DEADLOCK FALSE
 """
+WATCH = """SPECIFICATION Spec
+CONSTANTS Cap = %d MaxLen = %d
+INVARIANTS AlwaysASample
+CONSTRAINT Emit
+CHECK_DEADLOCK FALSE
+"""
 GEN = """SPECIFICATION Spec
 CONSTANTS Ids <- %s MaxLen = %d
 INVARIANTS ParkedAreRegistered
@@ -50,6 +56,21 @@ def run(ctx):
         fails += r["failures"]
         for k, v in r["named"].items():
             named[k] = named.get(k, 0) + v
+    for label, cap_, ml in ([("w2-7", 2, 7)] if quick else [("w2-8", 2, 8), ("w3-7", 3, 7)]):
+        cfg = ctx.write_cfg("ChannelWatcher.%s.cfg" % label, WATCH % (cap_, ml))
+        cases = ctx.path("cw-%s.ndjson" % label)
+        ctx.tlc_generate("ChannelWatcher", cfg, cases, label=label, timeout=3000)
+        out = ctx.path("out-%s.json" % label)
+        rc, txt, wall = ctx.go_test("notif", run="TestWatcher", env={"VERIF_CASES": cases, "VERIF_OUT": out}, timeout=3000)
+        if rc != 0 or not os.path.exists(out):
+            raise vlib.MachineryError("harness notif (watcher) failed (rc=%d)\n%s" % (rc, txt[-3000:]))
+        os.unlink(cases)
+        r = vlib.read_results(out)
+        ctx.cov["traces_validated_against_impl"] += r["evaluations"]
+        ctx.cov["evaluations"] += r["evaluations"]
+        fails += r["failures"]
+        for k, v in r["named"].items():
+            named[k] = named.get(k, 0) + v
     out = ctx.path("out-conc.json")
     rc, txt, wall = ctx.go_test("notif", run="TestConcurrent", env={"VERIF_OUT": out}, timeout=3000)
     if rc != 0 or not os.path.exists(out):
@@ -59,7 +80,7 @@ def run(ctx):
     fails += r["failures"]
     for k, v in r["named"].items():
         named[k] = named.get(k, 0) + v
-    for need in ("delivered", "dropped-for-a-busy-registrant", "woken-by-close", "churn-registration", "steady-received"):
+    for need in ("delivered", "dropped-for-a-busy-registrant", "woken-by-close", "churn-registration", "steady-received", "minimum-above-zero", "several-samples"):
         if named.get(need, 0) == 0 and not (ctx.violations or fails):
             raise vlib.MachineryError("vacuity: %s never reached" % need)
     ctx.cov["named_situations"] = named
